@@ -112,7 +112,8 @@ func (dec *Decoder) Decode() (*Document, error) {
 
 		node, indent, err := parseLine(line, document, family)
 		if err != nil {
-			if dec.AllowMultiLine && previousNode != nil {
+			if dec.AllowMultiLine && previousNode != nil &&
+				canContinueValue(previousNode) {
 				previousNode.RawSimpleNode().value += "\n" + line
 				continue
 			}
@@ -198,6 +199,18 @@ func (dec *Decoder) Decode() (*Document, error) {
 	document.buildPointerCache()
 
 	return document, nil
+}
+
+// canContinueValue is used for AllowMultiLine. The line of an individual or a
+// family does not carry a value: it would be written back, but it is never read
+// again. There is nothing a following line could be the continuation of.
+func canContinueValue(node Node) bool {
+	switch node.(type) {
+	case *IndividualNode, *FamilyNode:
+		return false
+	}
+
+	return true
 }
 
 func (dec *Decoder) trimNodeValue(previousNode Node) {
